@@ -329,6 +329,32 @@ def _shift(ctx, repo) -> None:
               "returned kernel is built from the per-axis phase ramps",
               "the returned kernel does not depend on the per-axis phase ramps", key_detail="uses")
 
+    # pure phase: after `K[i] = complex_exponential(...)` the kernels are only multiplied together; no statement
+    # patches elements of a kernel or of the product (that would make |kernel| != 1 or break exp(a)exp(b) = exp(a+b))
+    result_names = {n.id for n in ast.walk(rets[0].value) if isinstance(n, ast.Name)} & \
+        {d.var for d in df.defs if d.kind != "param"}
+    patched = []
+    for stn in walk_no_nested(f.node):
+        tg = stn.targets[0] if isinstance(stn, ast.Assign) else stn.target if isinstance(stn, ast.AugAssign) else None
+        if tg is None or stn is st:
+            continue
+        depth, root = 0, tg
+        while isinstance(root, ast.Subscript):
+            root, depth = root.value, depth + 1
+        if not isinstance(root, ast.Name):
+            continue
+        if root.id == K and depth >= 1:
+            patched.append(stn)
+        elif root.id in result_names and depth >= 1:
+            patched.append(stn)
+        elif root.id in result_names and isinstance(stn, ast.AugAssign) and not isinstance(stn.op, ast.Mult):
+            patched.append(stn)
+    ctx.check(not patched, "R-TERM", f"{f.qualname}:pure phase", f.loc(patched[0]) if patched else f.where,
+              "the per-axis kernels are stored once (complex_exponential) and only multiplied afterwards",
+              f"`{norm_text(patched[0])[:90]}` rewrites elements of the phase ramp after it was built: the kernel is no "
+              "longer exp(-2*pi*i*k*x) for every frequency, so shifts do not compose additively and a shift followed "
+              "by its inverse is not the identity" if patched else "", key_detail="pure-phase")
+
     g = repo.function(FFT, "fft_shift")
     a, p = g.positional_params[:2]
     rets = [n for n in walk_no_nested(g.node) if isinstance(n, ast.Return) and n.value is not None]
